@@ -373,19 +373,20 @@ func VerifC18_hostPort() {
 	vrt.Assert(sc.Match(req) == wantSuffix, "C18/host-suffix-in")
 }
 
-// VerifC18_hostIPv6: a Host header holding an IPv6 literal with a port ("[::1]:<port>").
+// VerifC18_hostIPv6: a Host header with a port whose host part is a name or an IPv6 literal ("[::1]:<port>").
 func VerifC18_hostIPv6() {
 	p := asciiC18("port", vrt.Range("plen", 1, 2))
 	for i := 0; i < len(p); i++ {
 		vrt.Assume(p[i] >= '0' && p[i] <= '9')
 	}
+	hostPart := []string{"a1", "[::1]"}[vrt.Choose("hostpart", 2)]
 	req := baseReqC18()
-	req.HttpRequest.Host = "[::1]:" + p
+	req.HttpRequest.Host = hostPart + ":" + p
 	vrt.Known("C18-ipv6-literal-host-split-at-first-colon", req.HttpRequest.Host[0] == '[')
 	pc := buildC18("req_port_in", litSC18("80|8"))
-	vrt.Assert(pc.Match(req) == (p == "80" || p == "8"), "C18/port-in-ipv6-literal-host")
-	sc := buildC18("req_host_suffix_in", litSC18("1]"))
-	vrt.Assert(sc.Match(req), "C18/host-suffix-ipv6-literal-host")
+	vrt.Assert(pc.Match(req) == (p == "80" || p == "8"), "C18/port-in-host-with-port")
+	sc := buildC18("req_host_suffix_in", litSC18("1]|a1"))
+	vrt.Assert(sc.Match(req), "C18/host-suffix-host-with-port")
 }
 
 func VerifC18_requestAttrs() {
@@ -589,18 +590,6 @@ func VerifC18_vipIn() {
 
 // ---------- F. hash primitives (murmur3 uninterpreted) ----------
 
-func lowerC18(s string) []byte {
-	b := make([]byte, len(s))
-	for i := 0; i < len(s); i++ {
-		c := s[i]
-		if c >= 'A' && c <= 'Z' {
-			c += 'a' - 'A'
-		}
-		b[i] = c
-	}
-	return b
-}
-
 func VerifC18_hashIn() {
 	src := vrt.Choose("source", 4) // query, cookie, header value; client ip
 	sect := vrt.Choose("section", 3)
@@ -655,12 +644,40 @@ func VerifC18_hashIn() {
 		vrt.Assert(!got, "C18/hash-missing-is-false")
 		return
 	}
-	arg := []byte(v)
-	if ci {
-		arg = lowerC18(v)
+	if !ci {
+		h := murmur3.Sum64([]byte(v))
+		vrt.Assert(got == inSect(h%10000), "C18/value-hash-in")
+		return
 	}
-	h := murmur3.Sum64(arg)
-	vrt.Assert(got == inSect(h%10000), "C18/value-hash-in")
+	// case-insensitive: the documentation fixes no canonical case, so the claim is invariance under
+	// changing the case of any letters, and exactness for values without letters
+	flip := vrt.Bytes("flip", len(v))
+	w := make([]byte, len(v))
+	letters := false
+	for i := 0; i < len(v); i++ {
+		c := v[i]
+		isL := c >= 'a' && c <= 'z' || c >= 'A' && c <= 'Z'
+		if isL {
+			letters = true
+		}
+		if isL && flip[i]&1 == 1 {
+			c ^= 0x20
+		}
+		w[i] = c
+	}
+	switch src {
+	case 0:
+		req.Query[key] = []string{string(w)}
+	case 1:
+		req.CookieMap[key] = &bfe_http.Cookie{Name: key, Value: string(w)}
+	case 2:
+		req.HttpRequest.Header[key] = []string{string(w)}
+	}
+	vrt.Assert(c.Match(req) == got, "C18/value-hash-in-case-insensitive")
+	if !letters {
+		h := murmur3.Sum64([]byte(v))
+		vrt.Assert(got == inSect(h%10000), "C18/value-hash-in")
+	}
 }
 
 // ---------- G. time primitives (request time mocked with X-Bfe-Debug-Time, as documented) ----------
